@@ -218,6 +218,59 @@ func checkC01(c *Ctx) {
 		})
 	}
 
+	// ---- C01.renumber ----
+	// Where placeholders are re-derived into a scratch builder (sub-query adoption, relation join ON
+	// conditions), the dialect numbers a placeholder by len(stmt.Vars): the statement handed to
+	// BindVarTo must have its Vars advanced to exactly the value being re-bound, in the same iteration.
+	rn := c.Rule("C01.renumber", "placeholder re-derivation loops advance the scratch statement's Vars per value before BindVarTo", 2)
+	sbT := p.StdNamed("strings", "Builder")
+	for _, f := range p.FuncsOf(pkgGorm, pkgCallbacks) {
+		info := f.Pkg.TypesInfo
+		for _, call := range callsIn(f) {
+			fn, _ := typeutil.Callee(info, call).(*types.Func)
+			if fn == nil || fn.Name() != "BindVarTo" || len(call.Args) != 3 {
+				continue
+			}
+			u, ok := unparen(call.Args[0]).(*ast.UnaryExpr)
+			if !ok || u.Op != token.AND {
+				continue
+			}
+			if tv, ok := info.Types[u.X]; !ok || !types.Identical(tv.Type, sbT) {
+				continue
+			}
+			// scratch builder: a placeholder text is being re-derived
+			stmtArg := unparen(call.Args[1])
+			if su, ok := stmtArg.(*ast.UnaryExpr); ok && su.Op == token.AND {
+				stmtArg = unparen(su.X)
+			}
+			target := canon(info, stmtArg) + ".Vars"
+			val := canon(info, call.Args[2])
+			c.Touch(f)
+			conf := &GuardConfig{Name: "c01-renumber:" + target, Events: func(info *types.Info, n ast.Node) []string {
+				as, ok := n.(*ast.AssignStmt)
+				if !ok || len(as.Lhs) != 1 || len(as.Rhs) != 1 || canon(info, as.Lhs[0]) != target {
+					return nil
+				}
+				switch r := unparen(as.Rhs[0]).(type) {
+				case *ast.CallExpr:
+					if id, ok := r.Fun.(*ast.Ident); ok && id.Name == "append" && len(r.Args) == 2 && !r.Ellipsis.IsValid() && canon(info, r.Args[0]) == target && canon(info, r.Args[1]) == val {
+						return []string{"advanced"}
+					}
+				case *ast.SliceExpr:
+					// vars[0:idx+1] inside `for idx, v := range vars`
+					if r.High != nil {
+						if be, ok := unparen(r.High).(*ast.BinaryExpr); ok && be.Op == token.ADD && isOneLit(be.Y) {
+							return []string{"advanced"}
+						}
+					}
+				}
+				return nil
+			}}
+			facts, live := p.Guards(f, conf).At(call.Pos())
+			rn.Check(live && facts.Has(fEvent("advanced")), f.Name(), "re-derive placeholder for "+val, call.Pos(), target+" advanced to this value in the same iteration", "a placeholder is re-derived with BindVarTo into a scratch builder, but "+target+" is not advanced to the value being re-bound in the same iteration: a numbered-placeholder dialect yields the same $n for every value and the renumbering corrupts the statement")
+		}
+	}
+
 	// ---- C01.once ----
 	ro := c.Rule("C01.once", "ONCE(loop over a value slice, AddVar); empty-slice arms write NULL or bind nil", 8)
 	for _, f := range p.FuncsOf(pkgClause, pkgGorm) {
